@@ -139,8 +139,20 @@ impl TirGen {
     }
 
     pub fn utxo_set(&mut self, rng: &mut Rng, depth: u32) -> HashSet<Utxo> {
-        let n = rng.usize(4);
-        (0..n).map(|_| self.utxo(rng, depth)).collect()
+        let n = rng.usize(5);
+        let mut v: Vec<Utxo> = (0..n).map(|_| self.utxo(rng, depth)).collect();
+        // sibling outputs: several UTxOs created by one transaction (same id, different output index)
+        if n >= 2 && rng.bool() {
+            let txid = v[0].r#ref.txid.clone();
+            let base = v[0].r#ref.index;
+            for (k, u) in v.iter_mut().enumerate().skip(1) {
+                if rng.chance(3, 4) {
+                    u.r#ref.txid = txid.clone();
+                    u.r#ref.index = base.wrapping_add(k as u32 * *rng.pick(&[1u32, 1, 255, 256, 65_536]));
+                }
+            }
+        }
+        v.into_iter().collect()
     }
 
     /// constant data expression (datum-like)
